@@ -293,6 +293,15 @@ fn drive_shared(mut it: Iter<'_, Tracked>, sel: &[Obs], script: &[Step]) -> R<()
                     return Err("skip/step_by/take counts are wrong".into());
                 }
             }
+            Step::Via(f) => {
+                let v: Vec<&Tracked> = via_collect(it.clone(), *f);
+                if v.len() != hi - lo {
+                    return Err(format!("{} visits {} elements, expected {}", VIA_NAMES[*f as usize % 8], v.len(), hi - lo));
+                }
+                for (k, t) in v.iter().enumerate() {
+                    chk(VIA_NAMES[*f as usize % 8], Some(t), Some(&sel[if f % 2 == 1 { hi - 1 - k } else { lo + k }]))?;
+                }
+            }
             Step::RFold => {
                 // internal iteration from the back, two spellings
                 let v: Vec<&Tracked> = it.clone().rfold(Vec::new(), |mut v, t| {
@@ -440,9 +449,10 @@ fn drive_mut(mut it: IterMut<'_, Tracked>, sel: &[Obs], script: &[Step], mut new
                 }
                 return Ok(writes);
             }
-            Step::Fold | Step::RFold | Step::RevLast => {
+            Step::Fold | Step::RFold | Step::RevLast | Step::Via(_) => {
                 // internal iteration (consuming): every visited element is written through
                 let v: Vec<&mut Tracked> = match st {
+                    Step::Via(f) => via_collect(it, *f),
                     Step::Fold => it.fold(Vec::new(), |mut v, t| {
                         v.push(t);
                         v
@@ -460,7 +470,7 @@ fn drive_mut(mut it: IterMut<'_, Tracked>, sel: &[Obs], script: &[Step], mut new
                 if v.len() != hi - lo {
                     return Err(format!("{st:?} visits {} elements, expected {}", v.len(), hi - lo));
                 }
-                let forward = matches!(st, Step::Fold);
+                let forward = matches!(st, Step::Fold) || matches!(st, Step::Via(f) if f % 2 == 0);
                 for (k, t) in v.into_iter().enumerate() {
                     let pos = if forward { lo + k } else { hi - 1 - k };
                     chk("internal iteration", Some(&*t), Some(&sel[pos]))?;
@@ -738,11 +748,12 @@ impl St {
                                 }
                             }
                         }
-                        Step::Count | Step::Fold | Step::Last | Step::RevCollect | Step::Skip(_) | Step::StepBy(_) | Step::RFold | Step::RevLast => {
+                        Step::Count | Step::Fold | Step::Last | Step::RevCollect | Step::Skip(_) | Step::StepBy(_) | Step::RFold | Step::RevLast | Step::Via(_) => {
                             let all: Vec<u32> = before[lo..hi].iter().map(|m| m.0).collect();
                             let (v, want): (Vec<Tracked>, Vec<u32>) = match st {
                                 Step::Fold => (it.fold_collect(), all),
                                 Step::RFold => (it.rfold_collect(), all.into_iter().rev().collect()),
+                                Step::Via(f) => (it.via_collect(*f), if f % 2 == 1 { all.into_iter().rev().collect() } else { all }),
                                 Step::RevLast => (it.rev_last().into_iter().collect(), all.into_iter().take(1).collect()),
                                 Step::Last => (it.last_rest().into_iter().collect(), all.into_iter().rev().take(1).collect()),
                                 Step::Skip(k) => (it.skip_collect(*k as usize), all.into_iter().skip(*k as usize).collect()),
